@@ -133,21 +133,56 @@ func rulesMashAdd(c *Ctx, r *Report) {
 		}
 		return true
 	})
+	push := methodCallOn(info, inner.Body, mh, "Push")
+	var protoBody ast.Node = inner.Body // where the Reset/Write/Sum64 protocol is carried out
+	callerH := hObj                    // the hasher variable in Add
+	if hObj == nil && push != nil && len(push.Args) == 1 {
+		// a helper of the package that hashes one k-mer: Push(helper(h, b))
+		if call, ok := ast.Unparen(push.Args[0]).(*ast.CallExpr); ok && len(call.Args) == 2 {
+			if fn, _ := typeutil.Callee(info, call).(*types.Func); fn != nil && fn.Pkg() == p.Types {
+				if hd := findDecl(p, fn.Name()); hd != nil && hd.Body != nil && hd.Recv == nil && len(hd.Type.Params.List) == 2 && len(hd.Type.Params.List[0].Names) == 1 && len(hd.Type.Params.List[1].Names) == 1 {
+					hp := info.Defs[hd.Type.Params.List[0].Names[0]]
+					kp := info.Defs[hd.Type.Params.List[1].Names[0]]
+					okRet := false
+					ast.Inspect(hd.Body, func(n ast.Node) bool {
+						if rs, ok := n.(*ast.ReturnStmt); ok && len(rs.Results) == 1 {
+							if rc, ok := ast.Unparen(rs.Results[0]).(*ast.CallExpr); ok {
+								if sel, ok := ast.Unparen(rc.Fun).(*ast.SelectorExpr); ok && sel.Sel.Name == "Sum64" && identObj(info, sel.X) == hp {
+									okRet = true
+								}
+							}
+						}
+						return true
+					})
+					if okRet && identObj(info, call.Args[1]) == bVar {
+						callerH = identObj(info, call.Args[0])
+						hObj, bVar, protoBody = hp, kp, hd.Body
+						r.analysed("mash." + fn.Name())
+					}
+				}
+			}
+		}
+	}
 	if hObj == nil {
 		r.violated("TS-HASH", where, "hash value", c.pos(inner.Pos()), "no Sum64() call in the k-mer loop")
 		return
 	}
-	push := methodCallOn(info, inner.Body, mh, "Push")
 	okPush := false
 	if push != nil && len(push.Args) == 1 {
 		if call, ok := ast.Unparen(push.Args[0]).(*ast.CallExpr); ok {
 			if sel, ok := ast.Unparen(call.Fun).(*ast.SelectorExpr); ok && sel.Sel.Name == "Sum64" && identObj(info, sel.X) == hObj {
 				okPush = true
 			}
+			if protoBody != ast.Node(inner.Body) {
+				okPush = true // Push(helper(h, b)) with the helper returning h.Sum64(): established above
+			}
 		}
 	}
 	r.check(okPush, "TS-HASH", where, "pushed value", c.pos(inner.Pos()), "what is pushed into the sketch is h.Sum64()", "the value pushed is not h.Sum64() of the loop's hasher")
-	bg := cfg.New(inner.Body, mayReturn(info))
+	var bg *cfg.CFG
+	if blk, ok := protoBody.(*ast.BlockStmt); ok {
+		bg = cfg.New(blk, mayReturn(info))
+	}
 	blocksWith := func(name string, argObj types.Object) []*cfg.Block {
 		var out []*cfg.Block
 		for _, b := range bg.Blocks {
@@ -225,19 +260,20 @@ func rulesMashAdd(c *Ctx, r *Report) {
 		"for every k-mer the hasher is reset, written with exactly that k-mer, and then summed", "the hasher is not Reset and then written with exactly the current k-mer before Sum64 (reset present: "+fmt.Sprint(len(resetB) > 0)+", write of the loop variable: "+fmt.Sprint(len(writeB) > 0)+"): a k-mer's hash depends on what was hashed before, so the sketch depends on input order")
 	// every k-mer is pushed
 	var pushBlocks []*cfg.Block
-	for _, b := range bg.Blocks {
+	ig := cfg.New(inner.Body, mayReturn(info))
+	for _, b := range ig.Blocks {
 		for _, nd := range b.Nodes {
 			if methodCallOn(info, nd, mh, "Push") != nil {
 				pushBlocks = append(pushBlocks, b)
 			}
 		}
 	}
-	r.check(!cfgReachExitAvoiding(entry, pushBlocks) && len(pushBlocks) > 0, "TS-HASH", where, "every k-mer is pushed", c.pos(inner.Pos()), "every iteration of the k-mer loop reaches mh.Push", "some k-mers can skip mh.Push")
+	r.check(len(ig.Blocks) > 0 && !cfgReachExitAvoiding(ig.Blocks[0], pushBlocks) && len(pushBlocks) > 0, "TS-HASH", where, "every k-mer is pushed", c.pos(inner.Pos()), "every iteration of the k-mer loop reaches mh.Push", "some k-mers can skip mh.Push")
 	// the hasher is murmur3.New64WithSeed(Seed)
 	okSeed := false
 	ast.Inspect(fd.Body, func(n ast.Node) bool {
 		as, ok := n.(*ast.AssignStmt)
-		if !ok || len(as.Lhs) != 1 || len(as.Rhs) != 1 || identObj(info, as.Lhs[0]) != hObj {
+		if !ok || len(as.Lhs) != 1 || len(as.Rhs) != 1 || identObj(info, as.Lhs[0]) != callerH {
 			return true
 		}
 		if call := isCallTo(info, as.Rhs[0], "github.com/spaolacci/murmur3.New64WithSeed"); call != nil {
